@@ -16,11 +16,11 @@ var nativeDoc = map[string]string{
 	"encoding/json.Unmarshal":     "target havoc'd to ANY value of its Go type (superset of decodable values); len(data)==0 => error",
 	"encoding/json.Marshal":       "returns an arbitrary byte slice and an arbitrary error",
 	"errors.New/fmt.Errorf":       "returns a fresh non-nil error",
-	"fmt.Sprintf/Sprint":          "returns an arbitrary string (deterministic in arguments not assumed)",
+	"fmt.Sprintf/Sprint":          "%x of a byte slice: the uninterpreted hex rendering; %v/%t/%s/%d of one simple operand: its standard rendering; a constant format of literal text and %s/%v verbs over plain strings: the concatenation; anything else: an arbitrary string",
 	"strings.Contains/HasPrefix":  "SMT str.contains / str.prefixof",
 	"strings.ReplaceAll/ToLower":  "uninterpreted deterministic string functions",
 	"bytes.Contains":              "arbitrary bool (deterministic)",
-	"time.After":                  "returns a channel; receive is a skip",
+	"time.After":                  "returns a channel; the receive is a skip (plus the interference clause of the contract, if any); in synchronously running code the duration must be provably at most 60 s",
 	"logging.Log":                 "returns a non-nil logger; logger methods have no effect",
 	"util.Ptr":                    "allocates a fresh cell holding the argument",
 	"math/rand.Intn":              "panics iff n <= 0 (obligation); returns 0 <= r < n",
